@@ -189,6 +189,36 @@ class F15(Family):
         return (t[2], t[3])
 
 
+class F15S(Family):
+    """parsed QoS rules / flow descriptions SHARED by all goroutines, which only read them (projection, MarshalBinary): the
+    values are marshalled and parsed before the goroutines start (harness/cmd/conc f15s, conc_sync F15_TAIL Share/RunShared);
+    the events have the shape of the family's RoundTrip events and are judged by Trace_C15.  The pool is family f15's."""
+    name, pid, trace, shards, driver = "f15s", "C15", "Trace_C15", 4, None
+
+    def pool(self, c, sd):
+        class R: distinct = 0; generated = 0; wall = 0.0
+        return [], R()
+
+    def plan(self, pool, rng, scale, wide=False):
+        vals = [x for x in pool if x["kind"] in ("rules", "descs")]
+        if len(vals) < 50: raise Infra("family f15s: only %d value cases in the pool of f15" % len(vals))
+        # identifiers in every order: the generator's own, reversed (descending), rotated
+        out = []
+        for x in _pick(rng, vals, 60 * scale, lambda x: json.dumps(x["x"])[:200]):
+            y = dict(x); y["muts"] = []; y["cuts"] = False; y.pop("rec", None)
+            out.append(y)
+            if x["kind"] == "rules" and any(len(r["filters"]) > 1 for r in x["x"]):
+                z = json.loads(json.dumps(y))
+                for r in z["x"]: r["filters"].reverse()
+                out.append(z)
+            if len(x["x"]) > 1:
+                z = json.loads(json.dumps(y)); z["x"].reverse(); out.append(z)
+        return [("shared-qos-%d" % k, out[k:k + 16]) for k in range(0, len(out), 16)]
+
+    def verdict(self, t):
+        return (t[2], t[3])
+
+
 # ------------------------------------------------------------------ C16 PCO / PSI
 class F16(Family):
     name, pid, trace, shards, driver, records = "f16", "C16", "Trace_C16", 4, "pco", True
@@ -411,6 +441,28 @@ class FMsg(Family):
             picked += _pick(rng, by[m], 4 * scale, lambda g: json.dumps([s["p"] for s in g["w"]["opt"]]))
         rng.shuffle(picked)
         cases = [dict(k="dec", entry="plain", inp=g["inp"]) for g in picked]
+        # every message type once more with its full optional set and constant contents (all ones, all zero, ...): a reader that
+        # special-cases a reserved value (a wildcard, "not present") takes that path on the shared message here
+        from codec_common import fill_variants, merge_wants, encode_value
+        extra = []
+        for m in sorted(by):
+            ws = [g["w"] for g in by[m]]
+            full = merge_wants(m, ws)
+            for fv in fill_variants(m, full)[:2 + scale]:
+                extra.append(dict(k="dec", entry="plain", inp=encode_value(m, fv)))
+            extra.append(dict(k="dec", entry="plain", inp=encode_value(m, full)))
+        # ... and single elements at every length the generator has for them, contents all ones
+        ones, seenl = [], set()
+        for m in sorted(by):
+            for g in by[m]:
+                k = (m, json.dumps([(s["p"], s["len"]) for s in g["w"]["opt"]]))
+                if k in seenl or not any(s["p"] for s in g["w"]["opt"]): continue
+                seenl.add(k)
+                ones.append(dict(k="dec", entry="plain", inp=encode_value(m, fill_variants(m, g["w"])[1])))
+        if not wide: ones = rng.sample(ones, min(len(ones), 250 * scale))
+        extra += ones
+        rng.shuffle(extra)
+        cases += extra
         return [("shared-%d" % k, cases[k:k + 12]) for k in range(0, len(cases), 12)]
 
     def verdict(self, t):
@@ -418,7 +470,7 @@ class FMsg(Family):
 
 
 def families(with_sec=True, with_ie=True):
-    fs = [F17(), F12(), F13(), F15(), F16(), F18()]
+    fs = [F17(), F12(), F13(), F15(), F15S(), F16(), F18()]
     if with_sec:
         fs += [FSec("f06", "C06", "Trace_C06", "MC_C06_gen"), FSec("f07", "C07", "Trace_C07", "MC_C07_gen")]
     if with_ie:
